@@ -654,15 +654,35 @@ class GenB:
         new = rng.choice(NICE) * rng.choice([1, 7, Fraction(1, 3)])
         if new == self.sizes[t]:
             return
-        self.sizes[t] = new
         a_nf = ((), ((t, 1),))
         expr_nf = (prefix, partner_nf[1])
+        probe = not pair_class(self.model, a_nf, expr_nf) and not pair_class(self.model, expr_nf, a_nf) \
+            and rng.random() < 0.7
+        if probe:
+            # ask for the pair before it is re-declared (whatever is memoised is then stale) ...
+            src, dst = (a_nf, expr_nf) if rng.random() < 0.5 else (expr_nf, a_nf)
+            mspec, _ = self.magnitude()
+            q = self.emit({"op": "q_new", "m": mspec, "u": self.unit_expr(src), "how": "mul"})
+            self.emit({"op": "convert", "q": q, "u": self.unit_expr(dst)})
+            self.queries.append(self.ops[-1])
+        self.sizes[t] = new
         ratio = self.size_nf(a_nf) / self.size_nf(expr_nf)
         m = ["int", str(ratio.numerator)] if ratio.denominator == 1 and abs(ratio.numerator) < 10 ** 12 \
             else ["float", repr(float(ratio))]
         eref = self.unit_expr(expr_nf)
         self.emit({"op": "declare", "a": self.unit_ref[t], "m": m, "expr": eref,
                    "resize": {"token": t, "size": str(new)}})
+        if probe:
+            # ... and in both directions right after it
+            for src, dst in ((a_nf, expr_nf), (expr_nf, a_nf)):
+                mspec, _ = self.magnitude()
+                q = self.emit({"op": "q_new", "m": mspec, "u": self.unit_expr(src), "how": "mul"})
+                if self.prop == "C05" and rng.random() < 0.5:
+                    self.emit({"op": "conv_roundtrip", "q": q, "u": self.unit_expr(dst)})
+                else:
+                    r = self.emit({"op": "convert", "q": q, "u": self.unit_expr(dst)})
+                    self.qtys.append((r, dst))
+                    self.queries.append(self.ops[-1])
 
     def g_evict(self):
         from sim.faults import CACHE_NAMES
@@ -770,7 +790,7 @@ class GenB:
                 continue
             k = rng.choices(["query", "chain", "repeat", "evict", "unrelated", "redeclare", "ladder", "reverse",
                              "endpoint"],
-                            [10, 3, 3, 2, 1, 1.5 if self.prop == "C08" else 0.3, 2, 2.5, 1.5])[0]
+                            [10, 3, 3, 2, 1, {"C08": 1.5, "C05": 1.0}.get(self.prop, 0.3), 2, 2.5, 1.5])[0]
             before = len(self.ops)
             getattr(self, "g_" + k)()
             if inject_budget and len(self.ops) > before and rng.random() < 0.15:
